@@ -313,11 +313,12 @@ Definition parse_json (bs : list N) : option jval :=
 (* jwt.PayloadToMap on the payload bytes (claims decoding of jwt.Parse): the same fork's STREAM decoder with
    UseNumber reads ONE value: numbers keep their literal (no float64 range), what follows the value is not looked at
    when the value is an object (its closing brace ends it), duplicate member names are rejected, the value must be
-   an object or null (null, followed by nothing or by white space, gives a nil map without error). *)
+   an object or null (null gives a nil map without error; the stream decoder ends a top-level literal at ANY following
+   byte - the scanner's complaint about that byte is recorded but not read -, so "nullx" decodes like "null"). *)
 Definition claims_obj (bs : list N) : bool :=
   match pval false (S (S (List.length bs))) bs with
   | Some (VObj _, _) => true
-  | Some (VNull, r) => match r with [] => true | c :: _ => is_ws c end
+  | Some (VNull, _) => true
   | _ => false
   end.
 
